@@ -19,7 +19,8 @@ RULE = ("Episodes = template net + seeded create/set/toggle ops + 1-4 calculatio
         "the pipeline, k resolved against a dry run on a deep copy). A case is non-trivial when the "
         "before/after table-snapshot comparison was actually performed around a calculation; distinct = "
         "distinct (calculation kind, stratum, exception type, injection site file:function, outcome class) "
-        "tuples among those.")
+        "tuples among those."
+        ' Between the calculations of an episode the user also creates / drops elements; power flow, short-circuit and DC options vary (trafo_loading, trafo3w_losses, line temperature, kappa method, fault impedance, bus argument forms).')
 COMPONENTS = {"real": ["pandapower calculation pipelines (runpp, rundcpp, runopp, rundcopp, runpp_3ph, calc_sc, "
                        "estimate, run_contingency, run_contingency_ls2g, run_contingency_parallel n_procs=1)",
                        "numba kernels, scipy/SuperLU, lightsim2grid (not interrupted)"],
